@@ -48,7 +48,8 @@ func (prop) Rule() string {
 		"(RetrieveChunkFromNode = 'deliver', RetrieveChunk with one chunkinfo route = 'deliver2', the forwarding stream handler = 'forward') from a fake peer that replies with the honest data or with " +
 		"truncated / extended (+1..+64, zero byte, past C+8) / bit-flipped data, data of another address, a flipped address, or an oversized payload whose first C+8 bytes hash to the address; accounting credit and the chunkinfo report may fail. " +
 		"pyramid cases: named chunks build honest file trees (1 leaf; 2..3 leaves with full first leaves) and GetChunkHashes is called with the honest map or with extra (valid / invalid), missing, altered (data or key), short, duplicate-key, zero-padded, span-lying, " +
-		"wrong-key-length entries, a zero-padded intermediate root, and oversized-but-hash-matching entries (as extra entry, as leaf, as root). Every Put is observed. " +
+		"wrong-key-length entries, a zero-padded intermediate root, and oversized-but-hash-matching entries (as extra entry, as leaf, as root); adversarial multi-entry cases (a*, am*, fix-pyramid-altered-not-last): the honest tree padded with valid unreachable entries to 2..12 entries, then variants with one or two bad entries at a random list position (payload byte of root / full leaf / last leaf altered, one span bit cleared, intermediate chunk with swapped or repeated references, altered unreachable extra, a valid chunk of the map under a reachable address, extension by non-zero bytes, an invalid entry under a random key). " +
+		"Every `pyr` op submits its pyramid 12 times, each time as a freshly built map with the insertion order rotated by one more entry (Go visits a small map in a rotation of its insertion order), into a fresh store: every trial is judged by the oracle, all trials must answer alike (else `unstable […]`). Every Put is observed. " +
 		"Non-trivial: at least one delivery/pyramid op with adversarial (non-honest) content; distinct by op-list hash. Not generated: mantaray manifests as pyramid root, intermediate chunks whose length is not a multiple of 32, spans >= 2^56 (joiner int64 overflow: endless loop), trees of height >= 2."
 }
 
@@ -421,6 +422,15 @@ func (g *gen) advPyramidCase(leaves int, n int) {
 		}
 	}
 	bit := func() int { return 1 << uint(r.Intn(8)) }
+	// extension by non-zero bytes; an intermediate chunk only by whole references (the joiner slices
+	// data[cursor:cursor+32] of an intermediate payload that is not a multiple of 32: a panic inside one of
+	// its goroutines would end the harness process if a changed GetChunkHashes let the entry through)
+	ext := func(nm string) string {
+		if nm == "f" && leaves > 1 {
+			return "@" + nm + "+h:" + core.Hex(append(r.Bytes(31), 1))
+		}
+		return "@" + nm + "+h:" + core.Hex(append(r.Bytes(r.Range(0, 8)), 1))
+	}
 	g.pyr("#"+root, base()) // honest tree + valid unreachable extras
 	k := r.Range(4, 7)
 	for j := 0; j < k; j++ {
@@ -457,7 +467,7 @@ func (g *gen) advPyramidCase(leaves int, n int) {
 				x := pads[r.Intn(len(pads))]
 				set(o, "#"+x, fmt.Sprintf("@%s^%d:%d", x, r.Intn(9), bit()))
 			} else {
-				set(o, "#"+victim, "@"+victim+"/"+strconv.Itoa(lenOf(victim)-1))
+				set(o, "#"+victim, ext(victim))
 			}
 		case 6: // a valid chunk of the map under the address of a reachable one
 			other := names[r.Intn(len(names))]
@@ -467,14 +477,11 @@ func (g *gen) advPyramidCase(leaves int, n int) {
 			if other != victim {
 				set(o, "#"+victim, "@"+other)
 			} else {
-				set(o, "#"+victim, "@"+victim+"+h:"+core.Hex(r.Bytes(r.Range(1, 40))))
+				set(o, "#"+victim, ext(victim))
 			}
-		case 7: // truncated by one byte / extended by non-zero bytes
-			if r.Bool() {
-				set(o, "#"+victim, "@"+victim+"/"+strconv.Itoa(lenOf(victim)-1))
-			} else {
-				set(o, "#"+victim, "@"+victim+"+h:"+core.Hex(append(r.Bytes(r.Range(0, 8)), 1)))
-			}
+		case 7: // extended by non-zero bytes (not truncated: a payload shorter than its span, let through by a
+			// changed GetChunkHashes, sends joiner.subtrieSection into an endless loop — see altPos)
+			set(o, "#"+victim, ext(victim))
 		case 8: // two bad entries: a reachable one and (if any) an extra
 			set(o, "#"+victim, fmt.Sprintf("@%s^%d:%d", victim, r.Range(8, lenOf(victim)-1), bit()))
 			if len(pads) > 0 {
